@@ -284,7 +284,17 @@ func c03Generate(e *c03Env, rnd *vh.Rand) error {
 		name  string
 		build func() *c03Node
 	}
-	lk := func() string { return leafKinds[g.rnd.Intn(len(leafKinds))] }
+	var weighted []string // SFTP leaves cost a child process each: fewer of them in the mixed sections
+	for _, k := range leafKinds {
+		w := map[string]int{"local": 3, "http": 3, "s3": 2, "sftp": 1}[k]
+		if thorough {
+			w = 1
+		}
+		for i := 0; i < w; i++ {
+			weighted = append(weighted, k)
+		}
+	}
+	lk := func() string { return weighted[g.rnd.Intn(len(weighted))] }
 	L := func() *c03Node { return g.leaf(lk(), g.rnd.Bool(), false) }
 	WL := func() *c03Node { // a writable leaf: mostly a local directory, sometimes S3 or SFTP
 		kind := "local"
@@ -362,7 +372,7 @@ func c03Generate(e *c03Env, rnd *vh.Rand) error {
 		if thorough && g.rnd.Chance(1, 5) {
 			depth = 4
 		}
-		st := g.randStack(depth, leafKinds)
+		st := g.randStack(depth, weighted)
 		d, d2 := g.chunkPair()
 		c := g.mk("random", digest, st, d, d2, func(l c03Leaf) string {
 			switch x := g.rnd.Intn(10); {
@@ -435,6 +445,9 @@ func c03Generate(e *c03Env, rnd *vh.Rand) error {
 			for _, unc := range []bool{false, true} {
 				for _, obj := range []string{"-", "00", "28b52ffd", "ff00ff00", "28b52ffd2000010000", "missing"} {
 					for v := 0; v < 4; v++ {
+						if !thorough && v > 0 && kind != "local" && g.rnd.Chance(2, 3) {
+							continue
+						}
 						g.reset()
 						digest := g.setDigest()
 						id := hex.EncodeToString(make([]byte, 32))
@@ -719,12 +732,83 @@ func c03Generate(e *c03Env, rnd *vh.Rand) error {
 			c.Multi = append(c.Multi, m)
 			m.Kind = "readers"
 			c.Multi = append(c.Multi, m)
+			m.Kind = "handle"
+			c.Multi = append(c.Multi, m)
 			if err := g.run(c); err != nil {
 				return err
 			}
 		}
 	}
 	lap("G held chunks")
+	// H. a reader that is used again after a failed request (the handle of a mounted index):
+	// 3..7 chunks, one or two of them damaged in every way, every backend kind on top
+	for _, plant := range c03Plants {
+		if plant == "good" {
+			continue
+		}
+		nrep := 1
+		if thorough {
+			nrep = 4
+		}
+		for rep := 0; rep < nrep; rep++ {
+			g.reset()
+			digest := g.setDigest()
+			var st *c03Node
+			switch g.rnd.Intn(6) {
+			case 0:
+				st = g.wrap("cache", anyLeaf(), g.wrap("repair", g.leaf("local", g.rnd.Bool(), false)))
+			case 1:
+				st = g.wrap("router", anyLeaf(), anyLeaf())
+			case 2:
+				st = g.wrap("dedup", anyLeaf())
+			default:
+				st = anyLeaf()
+			}
+			k := 3 + g.rnd.Intn(5)
+			var datas [][]byte
+			for i := 0; i < k; i++ {
+				d, _ := vh.Blob(g.rnd, 1+g.rnd.Intn(600))
+				d[0] = byte(1 + i)
+				datas = append(datas, d)
+			}
+			bad := map[int]bool{g.rnd.Intn(k): true}
+			if g.rnd.Bool() {
+				bad[g.rnd.Intn(k)] = true
+			}
+			c := &c03Case{Name: "reused-reader/" + plant, Digest: digest, Stack: st}
+			m := c03Multi{Kind: "handle", N: 1 + g.rnd.Intn(1000)}
+			var blob []byte
+			for i, d := range datas {
+				id := c03ID(d)
+				for _, l := range c03Leaves(st) {
+					p := "good"
+					if bad[i] {
+						p = plant
+					}
+					if p == "dir" {
+						if l.kind == "local" {
+							c.Dirs = append(c.Dirs, c03Slot{K: l.k, ID: id})
+							continue
+						}
+						p = "missing"
+					}
+					if obj, ok := c03Plant(g.rnd, p, d, datas[(i+1)%k], l.unc); ok {
+						c.Slots = append(c.Slots, c03Slot{K: l.k, ID: id, Obj: vh.Hex(obj), Kind: p})
+					}
+				}
+				m.IDs = append(m.IDs, id)
+				m.Sizes = append(m.Sizes, len(d))
+				blob = append(blob, d...)
+			}
+			c.Ops = []string{"g:" + m.IDs[0]}
+			m.Blob = vh.Hex(blob)
+			c.Multi = append(c.Multi, m)
+			if err := g.run(c); err != nil {
+				return err
+			}
+		}
+	}
+	lap("H reused reader")
 	return nil
 }
 
